@@ -390,9 +390,10 @@ def enumerate_tokens(part, nparts, switches=frozenset()):
 
     stats = Stats()
     templates = ["10 " + t for t in c10.NUM_SLOTS + c10.STR_SLOTS] + ["10 DATA {n},1\n20 READ A,B", "10 DATA 1,{n}\n20 READ A$,B$", "{n} A=1", "10 GOTO {n}", "10 ON A GOSUB 10,{n}",
-                                                                        "10 DIM A({n})", "10 DIM A$({n},2)", "10 CLEAR {n}", "10 IF A=1 THEN {n}", "10 IF A=1 THEN 10 ELSE {n}"]
+                                                                        "10 DIM A({n})", "10 DIM A$({n},2)", "10 CLEAR {n}", "10 IF A=1 THEN {n}", "10 IF A=1 THEN 10 ELSE {n}",
+                                                                        "10 ZN=JOYSTK({n})", "10 ZN=JOYSTK(A+{n})", "10 PRINT JOYSTK(A);JOYSTK({n})"]
     k = 0
-    for tok in EXTREME + ["&H ", "& H", "&HG", "&HOME", "1E5", ".5E-3", "1D5", "1E+", "0.", ".0", "00", "-0", "1.2.3", "&HFFFFFF0", "\"", "\"A", "A$$", "A%", "A!", "A#"]:
+    for tok in ["A", "1-A", "INT(A)", "0", "3", "4", "-1"] + EXTREME + ["&H ", "& H", "&HG", "&HOME", "1E5", ".5E-3", "1D5", "1E+", "0.", ".0", "00", "-0", "1.2.3", "&HFFFFFF0", "\"", "\"A", "A$$", "A%", "A!", "A#"]:
         for t in templates:
             k += 1
             if k % nparts != part:
